@@ -375,6 +375,38 @@ def check_c17(tier, seed, res, work):
         except Exception as ex:
             res.violations.append(dict(replay, what='report is not well-formed JSON: %s' % ex))
             continue
+        # the same run in other environments (variables, locale, CPUs, open-file limit): the same report
+        if trial < 2 and not gha:
+            for ov in ENV_MATRIX:
+                if 'GITHUB_ACTIONS' in ov[1]:
+                    continue
+                out2 = expected_path + '.env'
+                if os.path.exists(out2):
+                    os.remove(out2)
+                rc2, o2, e2 = run_env([B + '/pathfinder', 'ci', '--disable-metrics', '--project', proj, '--ruleset', rs_arg, '--output', fmt, '--output-file', out2], ov, timeout=300, base=env, cwd=cwd_)
+                stats['environment_runs'] += 1
+                try:
+                    rep2 = json.load(open(out2))
+                except Exception:
+                    rep2 = None
+                def canon(r):
+                    # the order of the findings of one rule is the (random) iteration order of the graph: compare as
+                    # multisets, each finding together with its row
+                    def srt(x):
+                        if isinstance(x, dict):
+                            if isinstance(x.get('result_set'), list) and isinstance(x.get('output'), list) and x['output'] and len(x['result_set']) % len(x['output']) == 0:
+                                k_ = len(x['result_set']) // len(x['output'])
+                                pairs = sorted(json.dumps([x['result_set'][k_ * i_:k_ * i_ + k_], o_], sort_keys=True) for i_, o_ in enumerate(x['output']))
+                                return dict({kk: srt(vv) for kk, vv in x.items() if kk not in ('result_set', 'output')}, findings=pairs)
+                            return {kk: srt(vv) for kk, vv in x.items()}
+                        if isinstance(x, list):
+                            return sorted((srt(y) for y in x), key=lambda y: json.dumps(y, sort_keys=True)) if x and isinstance(x[0], dict) and 'ruleId' in x[0] else [srt(y) for y in x]
+                        return x
+                    return re.sub(r'0x[0-9a-f]+', '0xPTR', json.dumps(srt(r), sort_keys=True))
+                if rc2 != rc or rep2 is None or canon(rep2) != canon(report):
+                    res.violations.append(dict(replay, what='the ci report depends on the environment of the run (%s): exit status %d, report %s' % (ov[0], rc2, 'missing' if rep2 is None else 'differs'),
+                                               environment=ov[1], open_files_limit=ov[2], stderr=e2.decode(errors='replace')[-300:]))
+                    break
         # stand-alone evaluation of each rule's query (real engine, one session) and the model
         alone_q = []
         for i, n in enumerate(order):
